@@ -13,8 +13,13 @@ use crossbeam_channel::{self, Receiver, RecvTimeoutError, Sender, TrySendError};
 use std::fmt;
 use std::io::{self, ErrorKind};
 use std::panic::RefUnwindSafe;
+#[cfg(not(cadence_verif))]
 use std::sync::atomic::{AtomicBool, AtomicU64, Ordering};
 use std::sync::Arc;
+#[cfg(cadence_verif)]
+use crate::verif_shim::atomic::AtomicU64;
+#[cfg(cadence_verif)]
+use std::sync::atomic::{AtomicBool, Ordering};
 use std::time::Duration;
 #[cfg(cadence_verif)]
 use crate::verif_shim::thread;
